@@ -186,6 +186,10 @@ def ref_eval(t, env):
         return l * r
     if op == '/':
         return l / r
+    # numbers (booleans count as 0/1, as the value tier and the runtime treat them) sort before texts
+    def key(v):
+        return (1, v) if isinstance(v, str) else (0, v)
+    l, r = key(l), key(r)
     return {'=': l == r, '<>': l != r, '<': l < r, '<=': l <= r, '>': l > r, '>=': l >= r}[op]
 
 
